@@ -66,5 +66,3 @@ func spaceDescription(thorough bool) map[string]any {
 	}
 	return m
 }
-
-func runLoop(c Case) []V { return nil }
